@@ -1,3 +1,191 @@
-/-! # C19 — property theorems (stub: nothing stated yet) -/
+import SR.Proofs.PathApi
+/-!
+# C19 — Explorer, on-demand checking and the Path API agree with the model
+
+Property theorems only. Model: `SR/Checker/PathApi.lean` (src/checker/path.rs, the `states` /
+`status` / `get_properties` handlers of src/checker/explorer.rs, `reconstruct_path`), over an
+arbitrary `Sys σ α` (= any `Model`) and a fingerprint function `key`; the fingerprint is assumed
+injective exactly where the statement needs it (`inj`), as everywhere in this framework.
+
+`IsExec M p`: `p` starts in an initial state and every step is a not-ignored action of the model
+(path.rs never consults the boundary).
+
+Not modelled: `ui/app.js`, the 4-second `recent_path` snapshot, the `svg` field.
+-/
 namespace SR.C19
+open SR SR.PathApi
+
+variable {σ α : Type}
+
+/-- fingerprints → path: the encoded form of a real execution decodes (no panic) to an execution
+through the same states, every step of which is a model step (the action may be another action
+with the same successor), and which encodes to the same fingerprints. -/
+theorem C19_fp_roundtrip (M : Sys σ α) (key : σ → Nat) (inj : ∀ x y, key x = key y → x = y)
+    (p : Path σ α) (h : IsExec M p) :
+    ∃ p', fromFingerprints M key (encode key p) = some p' ∧ intoStates p' = intoStates p ∧
+      IsExec M p' ∧ encode key p' = encode key p := by
+  obtain ⟨s, hs, he⟩ := h
+  obtain ⟨p', hp', hst, he'⟩ := fromFpsAux_complete (key := key) inj he
+  have hk := encode_execFrom key he
+  have : fromFingerprints M key (encode key p) = some p' := by
+    rw [hk]; simp only [fromFingerprints, find_init_of_inj inj hs]; exact hp'
+  exact ⟨p', this, hst, ⟨s, hs, he'⟩, (fromFingerprints_sound M key _ p' this).2⟩
+
+/-- decode then encode is the identity, and whatever `from_fingerprints` returns is an execution -/
+theorem C19_encode_roundtrip (M : Sys σ α) (key : σ → Nat) (fps : List Nat) (p : Path σ α)
+    (h : fromFingerprints M key fps = some p) : IsExec M p ∧ encode key p = fps :=
+  fromFingerprints_sound M key fps p h
+
+/-- actions → path: the action list of an execution, replayed from its first state, rebuilds
+exactly that execution (actions determine successors); a first state that is not initial gives `None`. -/
+theorem C19_actions_roundtrip [DecidableEq σ] [DecidableEq α] (M : Sys σ α) (p : Path σ α) (s : σ)
+    (hs : s ∈ M.init) (h : ExecFrom M s p) :
+    fromActions M s (intoActions p) = some p ∧ (∀ s' acts, s' ∉ M.init → fromActions M s' acts = none) := by
+  constructor
+  · simp only [fromActions, hs, if_true]; exact fromActionsAux_exec h
+  · intro s' acts hn; simp [fromActions, hn]
+
+/-- `final_state` is the last state of `from_fingerprints` (`None` where that panics), and it is
+`None` exactly for fingerprint sequences that denote no execution. -/
+theorem C19_final_state (M : Sys σ α) (key : σ → Nat) (fps : List Nat) :
+    finalState M key fps = (fromFingerprints M key fps).bind lastState ∧
+    ((∀ x y, key x = key y → x = y) →
+      (finalState M key fps = none ↔ ¬ ∃ p, IsExec M p ∧ encode key p = fps)) := by
+  refine ⟨finalState_eq M key fps, fun inj => ?_⟩
+  rw [finalState_eq]
+  constructor
+  · intro hnone ⟨p, hp, hk⟩
+    obtain ⟨p', hp', _, ⟨s, _, he'⟩, _⟩ := C19_fp_roundtrip M key inj p hp
+    rw [hk] at hp'
+    rw [hp'] at hnone
+    obtain ⟨t, ht⟩ := lastState_execFrom he'
+    simp [ht] at hnone
+  · intro hno
+    cases hf : fromFingerprints M key fps with
+    | none => rfl
+    | some p => exact absurd ⟨p, fromFingerprints_sound M key fps p hf⟩ hno
+
+/-- `GET /.states<path>`: for a path that parses to the fingerprints of a real execution the answer
+lists exactly the enabled actions of its final state, in order, each with its successor (ignored
+actions kept, marked by `none`); the empty sequence lists the initial states; and the answer is
+`Err` (HTTP 404) exactly when the path does not parse or denotes no execution. -/
+theorem C19_states_view (M : Sys σ α) (key : σ → Nat) (inj : ∀ x y, key x = key y → x = y)
+    (path : String) :
+    (∀ fps p, parseFps path = some fps → fps ≠ [] → IsExec M p → encode key p = fps →
+        ∃ s, lastState p = some s ∧ statesView M key path = some (rowsAt M s)) ∧
+    (parseFps path = some [] → statesView M key path = some (M.init.map Row.init)) ∧
+    (statesView M key path = none ↔
+        parseFps path = none ∨
+        ∃ fps, parseFps path = some fps ∧ fps ≠ [] ∧ ¬ ∃ p, IsExec M p ∧ encode key p = fps) := by
+  refine ⟨?_, ?_, ?_⟩
+  · intro fps p hparse hne hp hk
+    obtain ⟨p', hp', hst, _, _⟩ := C19_fp_roundtrip M key inj p hp
+    rw [hk] at hp'
+    obtain ⟨s0, _, he⟩ := hp
+    obtain ⟨t, ht⟩ := lastState_execFrom he
+    refine ⟨t, ht, ?_⟩
+    have hfin : finalState M key fps = some t := by
+      rw [finalState_eq, hp']; simp [lastState_eq_of_states hst, ht]
+    cases fps with
+    | nil => exact absurd rfl hne
+    | cons f r => simp only [statesView, hparse, hfin]
+  · intro hparse; simp only [statesView, hparse]
+  · constructor
+    · intro hnone
+      cases hparse : parseFps path with
+      | none => exact Or.inl rfl
+      | some fps =>
+        right
+        cases fps with
+        | nil => simp [statesView, hparse] at hnone
+        | cons f r =>
+          refine ⟨f :: r, rfl, by simp, ?_⟩
+          apply ((C19_final_state M key (f :: r)).2 inj).1
+          simp only [statesView, hparse] at hnone
+          cases hf : finalState M key (f :: r) with
+          | none => rfl
+          | some s => simp [hf] at hnone
+    · rintro (hparse | ⟨fps, hparse, hne, hno⟩)
+      · simp only [statesView, hparse]
+      · have := ((C19_final_state M key fps).2 inj).2 hno
+        cases fps with
+        | nil => exact absurd rfl hne
+        | cons f r => simp only [statesView, hparse, this]
+
+/-- `GET /.status`: the four counters are the checker's; there is one triple per property, in
+order, carrying the model's expectation; and every reported discovery path is the fingerprint
+sequence of a real execution of the model that ends in the state the checker recorded for that
+property (when that fingerprint is in `generated`). That this state violates / satisfies the
+property — i.e. that the path is a C03 witness — is the checker machine's invariant (C03). -/
+theorem C19_status (M : Sys σ α) (key : σ → Nat) (exps : List Expect) (snap : Snapshot) :
+    let v := statusView M key exps snap
+    (v.done = snap.done ∧ v.stateCount = snap.stateCount ∧ v.unique = snap.unique ∧ v.maxDepth = snap.maxDepth) ∧
+    v.props.map (fun t => (t.1, t.2.1)) = exps.zipIdx ∧
+    (∀ e i fps, (e, i, some fps) ∈ v.props → fps ≠ [] →
+      ∃ fp p, (i, fp) ∈ snap.disc ∧ IsExec M p ∧ encode key p = fps ∧
+        ((snap.gen.get fp).isSome → ∃ s, lastState p = some s ∧ key s = fp)) := by
+  refine ⟨⟨rfl, rfl, rfl, rfl⟩, ?_, ?_⟩
+  · simp only [statusView, propsView, List.map_map]
+    conv => rhs; rw [← List.map_id (exps.zipIdx)]
+    apply List.map_congr_left
+    intro x _; rfl
+  · intro e i fps hm hne
+    simp only [statusView, propsView, List.mem_map] at hm
+    obtain ⟨⟨e', i'⟩, _, heq⟩ := hm
+    injection heq with h1 h2
+    injection h2 with h2 h3
+    subst h1 h2
+    cases hf : snap.disc.find? (fun d => d.1 == i') with
+    | none => rw [hf] at h3; cases h3
+    | some d =>
+      rw [hf] at h3
+      simp only [Option.map_some, Option.some.injEq] at h3
+      have hd : d.1 = i' := by have := List.find?_some hf; simpa using this
+      have hmem : (i', d.2) ∈ snap.disc := by
+        have := List.mem_of_find?_eq_some hf
+        rw [← hd]; exact this
+      cases hr : reconstructPath M key snap.gen d.2 with
+      | none => rw [hr] at h3; exact absurd h3.symm hne
+      | some p =>
+        rw [hr] at h3
+        obtain ⟨hex, hk⟩ := fromFingerprints_sound M key _ p hr
+        refine ⟨d.2, p, hmem, hex, h3, ?_⟩
+        intro hg
+        have hl := walkBack_last snap.gen snap.gen.length d.2 hg
+        rw [← hk, encode_getLast] at hl
+        cases hls : lastState p with
+        | none => rw [hls] at hl; cases hl
+        | some s => rw [hls] at hl; simp at hl; exact ⟨s, rfl, hl⟩
+
+-- on-demand scheduler: lead
+-- (C19_on_demand_targeted / C19_on_demand_complete are theorems about the checker machine of
+--  lean/SR/Checker/*; the harness of this property observes them on the real on-demand checker.)
+
+/-! ### the hypotheses are satisfiable: a 4-state model with an ignored action, a join and a cycle -/
+
+/-- 0 -a0-> 1, 0 -a1-> 2, 1 -a0-> 3, 2 -a0-> 3, 3 -a0-> 0; action 2 of state 0 is ignored -/
+def exM : Sys Nat Nat where
+  init := [0]
+  acts s := if s = 0 then [0, 1, 2] else [0]
+  next s a := match s, a with
+    | 0, 0 => some 1 | 0, 1 => some 2 | 1, 0 => some 3 | 2, 0 => some 3 | 3, 0 => some 0 | _, _ => none
+  inB _ := true
+
+def exKey (s : Nat) : Nat := 100 + s
+
+def exPath : Path Nat Nat := [(0, some 1), (2, some 0), (3, none)]
+
+example : IsExec exM exPath :=
+  ⟨0, by simp [exM], .step (by simp [exM]) rfl (.step (by simp [exM]) rfl (.last 3))⟩
+example : fromFingerprints exM exKey (encode exKey exPath) = some exPath := by decide
+example : fromActions exM 0 (intoActions exPath) = some exPath := by decide
+example : finalState exM exKey [100, 102, 103] = some 3 := by decide
+example : finalState exM exKey [100, 103] = none := by decide
+example : statesView exM exKey "/100" =
+    some [.step 0 (some 1), .step 1 (some 2), .step 2 none] := by decide
+example : statesView exM exKey "/100/103/" = none := by decide
+example : statesView exM exKey "/100/abc" = none := by decide
+example : (statusView exM exKey [.always] ⟨true, 5, 4, 3, [(103, some 102), (102, some 100), (100, none)], [(0, 103)]⟩).props
+    = [(.always, 0, some [100, 102, 103])] := by decide
+
 end SR.C19
